@@ -3,7 +3,7 @@
     ALL grammars; that the emitted text parses, type-checks, compiles and is gofmt-canonical is decided
     by running the Go tools on every file the correspondence runs generate (all eight option sets, plus
     streams for many rules, imports, header comments, odd characters, comments in predicates). *)
-From PegV Require Import Base.Tac Spec.Syntax Model.Analyses Model.EmitFacts Model.Emit Model.Link Model.Optimize Model.SEmit Proofs.EmitProofs Proofs.EmitWF Proofs.EmitUse Proofs.EmitScope Proofs.OptCases Proofs.SEmitShape Proofs.LinkProofs.
+From PegV Require Import Base.Tac Spec.Syntax Model.Analyses Model.EmitFacts Model.Emit Model.Link Model.Optimize Model.SEmit Proofs.EmitProofs Proofs.EmitWF Proofs.EmitUse Proofs.EmitScope Proofs.OptCases Proofs.SEmitShape Proofs.LinkProofs Reader.BridgeDefs Reader.BuiltAlt2.
 Open Scope Z_scope.
 
 (** The type chosen for rule constants (and, since the fix, for the memo key's rule field) holds every
@@ -91,6 +91,15 @@ Theorem C08_functions_end_in_return :
            (semit_all g ptx ast inline asu undef).
 Proof. exact functions_end_in_return. Qed.
 Print Assumptions C08_functions_end_in_return.
+
+(** ... and the builder, whatever calls it is given (hence whatever text the front end accepted), ends up with rules
+    whose choices all have two alternatives or more: AddAlternate joins two nodes or appends to a choice, the
+    case-insensitive forms build two-way choices.  With [link_alt2] and [C08_switch_keeps_two_alternatives] this discharges
+    the hypothesis [grammar_alt2] for every tree that reaches the emitter. *)
+Theorem C08_builder_keeps_two_alternatives :
+  forall nm ak cs s', frun nm ak cs finit = Some s' -> forall n e, In (NRule n e) (back s') -> alt2 e = true.
+Proof. exact built_rules_alt2. Qed.
+Print Assumptions C08_builder_keeps_two_alternatives.
 
 Theorem C08_switch_keeps_two_alternatives :
   forall g, grammar_alt2 g -> grammar_alt2 (optimize g).
